@@ -144,6 +144,7 @@ def run(F, res, tier):
     # the token whose range is used is the token at the cursor
     tk = any(FL.short(callee(t) or callee_def(t)) == "syntax::best_token_at_offset" or (callee(t) or "") == "syntax::best_token_at_offset" for b, t in cn.calls())
     res.ob("X3", "token-at-cursor", "that token is best_token_at_offset(file, cursor)", tk, where=cn.loc(), how=str(tk))
+    labels_are_scope_names(F, res)
 
 
 def extra_rules(F, res):
@@ -222,3 +223,69 @@ def extra_rules(F, res):
             whyx = "the looked-up name derives from fields %s" % sorted(x for x in fields if x)
     res.ob("X5", "import-bound-name", "an imported module is looked up (and offered) under the name the import binds: its `as` alias if there is one, else its last path segment",
            okx, where=ce.loc(), how=whyx)
+
+
+def labels_are_scope_names(F, res, rule="X6"):
+    """X6: every item offered for a name in scope is offered UNDER that name. In complete_expr's loop over
+    Resolver::values_names_in_scope() the pushed CompletionItem's `label` and `replace` must derive from the loop's name
+    (tuple field 0 of the iterator item), either in the struct literal or by assignment after a render helper built it.
+    (`import m.{foo as bar}` puts `bar` in scope; offering `foo` inserts a name that does not resolve.)"""
+    fn = F.fn("ide::ide::completion::complete_expr")
+    d = FL.Defs(fn)
+    # the names loop: the Iterator::next whose receiver derives from values_names_in_scope
+    nexts = []
+    for b, t in fn.calls():
+        if FL.short(callee(t) or callee_def(t)).endswith("Iterator::next"):
+            dep = FL.depends(F, fn, d, t["args"][0])
+            if any(c.endswith("Resolver::values_names_in_scope") for c in dep["calls"]):
+                nexts.append(b)
+    if not nexts:
+        res.anchor_missing(rule, "loop over Resolver::values_names_in_scope() in complete_expr")
+        return
+    nb = nexts[0]
+    loops = [fn.natural_loop(tail, head) for tail, head in fn.back_edges()]
+    body = min((l for l in loops if nb in l), key=len, default=set())
+
+    def from_name(op):
+        o = d.origin_op(op, ("Clone>::clone", "Into<U>>::into", "From<T>>::from", "ToOwned>::to_owned"))
+        if o.get("k") != "field":
+            return False
+        base = o["base"]
+        while base.get("k") == "field":
+            base = base["base"]
+        proj = [e for e in o.get("proj", []) if isinstance(e, dict)]
+        # Some(payload) . payload.0 (the name of the (name, def) pair)
+        idx = [e.get("f") for e in proj if e.get("n") != "Some"]
+        return base.get("k") == "call" and base.get("bb") == nb and len(idx) >= 2 and idx[-1] == 0
+    n = 0
+    for b, t in fn.calls():
+        if FL.short(callee(t) or callee_def(t)) != "Vec::push" or b not in body:
+            continue
+        n += 1
+        ordn = [bb for bb, tt in fn.calls() if FL.short(callee(tt) or callee_def(tt)) == "Vec::push" and bb in body].index(b)
+        o = d.origin_op(t["args"][1])
+        ok = {"label": False, "replace": False}
+        how = ""
+        if o.get("k") == "agg" and (o["rv"].get("adt") or "").endswith("CompletionItem"):
+            for fld in ok:
+                fop = o["rv"]["ops"][o["rv"]["fields"].index(fld)]
+                ok[fld] = from_name(fop)
+                if not ok[fld]:
+                    # formatted from the name (format!("{}", name)): depends on the loop item and on no declared-name accessor
+                    dep = FL.depends(F, fn, d, fop)
+                    ok[fld] = any(c.endswith("Iterator::next") for c in dep["calls"]) and any("fmt" in c for c in dep["calls"]) and \
+                        not any(c.endswith("::name") for c in dep["calls"])
+            how = "struct literal"
+        elif o.get("k") == "call":
+            # built by a helper: the fields must be overwritten from the name before the push
+            item_l = o.get("l")
+            for bb, i, s_ in fn.stmts():
+                if s_["k"] == "assign" and s_["place"]["l"] == item_l and s_["place"]["p"] and fn.dominates(bb, b):
+                    pr = s_["place"]["p"][-1]
+                    nm = pr.get("n") if isinstance(pr, dict) else None
+                    if nm in ok and s_["rv"]["k"] == "use" and from_name(s_["rv"]["op"]):
+                        ok[nm] = True
+            how = "built by %s" % FL.short(callee(o["t"]) or callee_def(o["t"]))
+        res.ob(rule, "scope-name/%d" % ordn, "the item pushed here for a name in scope carries that name as its label and as the text it inserts",
+               all(ok.values()), where=fn.loc(t["ln"]), how="%s; label from the scope name: %s, inserted text from the scope name: %s" % (how, ok["label"], ok["replace"]))
+    res.floor("items pushed in the names-in-scope loop", n, 4)
